@@ -14,7 +14,7 @@
    every implementation trace together with P_C02. *)
 From Coq Require Import ZArith List Bool Arith.
 Import ListNotations.
-From MV Require Import Time.Spec Sched.Timing Sched.Inv Sched.Init Sched.Wle Sched.Main Sched.Guards Sched.Strict Sched.Final Sched.Live Sched.Progress Sched.Quiet Sched.NoLost Static.Groups Static.Connect Static.Build Sched.Plane Sched.Link Sched.Certify.
+From MV Require Import Time.Spec Sched.Timing Sched.Inv Sched.Init Sched.Wle Sched.Main Sched.Guards Sched.Strict Sched.Final Sched.Live Sched.Progress Sched.Quiet Sched.NoLost Static.Groups Static.Connect Static.Build Sched.Plane Sched.Link Sched.Certify Sched.GenView Gen.SchedulerFns Sched.SchedTie.
 Open Scope Z_scope.
 
 Theorem C02_partial_begin_is_progress : forall st, static_ok st -> forall s i t m s',
@@ -81,3 +81,13 @@ Theorem C02_done_means_queue_empty : forall st, static_ok st -> init_before_unti
   forall s i, reached st s -> (i < nsims st)%nat -> pc (s i) = Done -> nexts (s i) = [].
 Proof. exact done_queue_empty. Qed.
 Print Assumptions C02_done_means_queue_empty.
+
+(* tie to the source: SimRunner.schedule_step (mosaik/simmanager.py), checked statement by statement and re-emitted on every run
+   (Gen/SchedulerFns.v), is the model's schedule: a time that is already queued is not queued again, otherwise it joins the
+   queue and the newer_step flag is raised iff it is earlier than everything queued *)
+Theorem C02_generated_schedule_step_is_the_model : forall s i t,
+  schedule s i t =
+  let x := s i in let r := schedule_step (nexts x) (newer x) t in
+  if memT t (nexts x) then s else upd s i (mkSim (pc x) (prog x) (fst r) (cur x) (last x) (snd r)).
+Proof. exact tie_schedule_step. Qed.
+Print Assumptions C02_generated_schedule_step_is_the_model.
